@@ -532,6 +532,59 @@ fn publish_job(src: SrcKind, len: usize) -> Job {
   })
 }
 
+/// A source that neither completes nor fails, multicast: the subscribers see
+/// exactly what the source delivers — in particular no terminal of the
+/// multicast's own making (`never()`'s subscription, `()`, reports closed
+/// although the source is not over).
+fn open_source_job(which: usize, how: usize) -> Job {
+  use crate::ast::{build_local, NoteSpec, Op2, Pipe, Src};
+  use crate::drive::{Form, Run};
+  let (pipe, want): (Pipe, Vec<Note>) = match which {
+    0 => (Pipe::S(Src::Never), vec![]),
+    1 => (Pipe::S(Src::Create(vec![NoteSpec::N(0)])), vec![Note::N(V::I(0))]),
+    _ => (Pipe::S(Src::Of(1)).o2(Op2::Merge, Pipe::S(Src::Never)), vec![Note::N(V::I(1))]),
+  };
+  let how_name = ["share", "share, two subscribers", "publish + connect"][how];
+  Job::new(format!("{} multicast by {how_name}", pipe.show()), move |_ch, obs| {
+    let r = Run::prepare(1, Form::Local);
+    let (p1, p2) = (Probe::new(), Probe::new());
+    let mut wants = vec![want.clone()];
+    match how {
+      0 => {
+        let _u = build_local(&pipe, &r.cx).share().actual_subscribe(p1.clone());
+      }
+      1 => {
+        let sh = build_local(&pipe, &r.cx).share();
+        let _u1 = sh.clone().actual_subscribe(p1.clone());
+        let _u2 = sh.actual_subscribe(p2.clone());
+        // the second subscriber joins after a cold source has emitted
+        wants.push(vec![]);
+      }
+      _ => {
+        let c = build_local(&pipe, &r.cx).publish::<Subject<'static, V, E>>();
+        let _u = c.fork().actual_subscribe(p1.clone());
+        let _k = c.connect();
+      }
+    }
+    obs.checks += 1;
+    for (i, (p, w)) in [&p1, &p2].iter().zip(wants.iter()).enumerate() {
+      if &p.notes() != w {
+        obs.fail(
+          format!("c11:open-source:{}", ["share", "share", "publish"][how]),
+          format!(
+            "{} multicast by {how_name}: the source delivers [{}] and stays open; subscriber {i} saw [{}]",
+            pipe.show(),
+            fmt_notes(w),
+            fmt_notes(&p.notes())
+          ),
+        );
+      }
+    }
+    obs.delivered = 1 + p1.len() as u64;
+    obs.note_outcome(&p1.notes());
+  })
+}
+
 pub fn plan(tier: Tier) -> Plan {
   let len = match tier {
     Tier::Quick => 7,
@@ -545,6 +598,11 @@ pub fn plan(tier: Tier) -> Plan {
     }
     jobs.push(publish_job(src, len));
   }
+  for which in 0..3 {
+    for how in 0..3 {
+      jobs.push(open_source_job(which, how));
+    }
+  }
   for fail_at_connect in [false, true] {
     jobs.push(share_cut_local(len + 1, fail_at_connect));
     jobs.push(share_cut_threads(len + 1, fail_at_connect));
@@ -555,7 +613,7 @@ pub fn plan(tier: Tier) -> Plan {
       prop: "C11".into(),
       tier: tier_name(tier),
       engine: "E1 opseq".into(),
-      rule: "every history up to the length bound over {subscribe (<=3), unsubscribe(k), dropping an unsubscribe_when_dropped guard(k), source next(0)/next(1)/complete/error, connect} for share / share_threads (hot and cold synchronous source, behind tap or tap+map+scan carrying counters) and publish + fork + connect, and share behind tap.take(2) / tap.merge(throw) over a hot source that outlives the shared stream (every subscriber gone = upstream tap counter frozen); after every step: source subscription counter (0 before connect, exactly 1 after the first join, never 2), every subscriber's trace = items emitted while it was present + the terminal, and after the last subscriber has left neither the upstream tap counter nor the subscription counter moves; non-trivial = a probe received something".into(),
+      rule: "every history up to the length bound over {subscribe (<=3), unsubscribe(k), dropping an unsubscribe_when_dropped guard(k), source next(0)/next(1)/complete/error, connect} for share / share_threads (hot and cold synchronous source, behind tap or tap+map+scan carrying counters) and publish + fork + connect, sources that stay open (never(), a create that emits and keeps its subscriber, of(1).merge(never())) multicast by share and by publish + connect (no terminal of the multicast's own making), and share behind tap.take(2) / tap.merge(throw) over a hot source that outlives the shared stream (every subscriber gone = upstream tap counter frozen); after every step: source subscription counter (0 before connect, exactly 1 after the first join, never 2), every subscriber's trace = items emitted while it was present + the terminal, and after the last subscriber has left neither the upstream tap counter nor the subscription counter moves; non-trivial = a probe received something".into(),
       bounds: json!({"history_len": len, "subscribers": MAX_SUBS}),
       assumptions: vec!["what a subscriber that joins after the reference count went back to zero receives is not asserted".into()],
     },
